@@ -492,8 +492,18 @@ def run_check(pid, tier, seed, replay):
         os.makedirs(os.path.dirname(outp), exist_ok=True)
         cmd = ["timeout", "120", drive_bin(prof), "run", "--elem", hdr.get("elem", "plain"), "--script", replay, "--out", outp]
         r = subprocess.run(cmd, stdout=subprocess.PIPE, stderr=subprocess.STDOUT, text=True)
-        traces.append(dict(path=outp, status=status_of(r.returncode), suite="replay", profile=prof, elem=hdr.get("elem"),
-                           log=r.stdout[-2000:], cmd=" ".join(cmd)))
+        ent = dict(path=outp, status=status_of(r.returncode), suite="replay", profile=prof, elem=hdr.get("elem"),
+                   log=r.stdout[-2000:], cmd=" ".join(cmd))
+        if pid == "C17":
+            # the differential property: re-execute under the other profile too and compare
+            other = "release" if prof == "debug" else "debug"
+            outb = outp.replace(".out.ndjson", ".out.%s.ndjson" % other)
+            cmd2 = ["timeout", "120", drive_bin(other), "run", "--elem", hdr.get("elem", "plain"), "--script", replay, "--out", outb]
+            r2 = subprocess.run(cmd2, stdout=subprocess.PIPE, stderr=subprocess.STDOUT, text=True)
+            ent["pair"] = outb
+            traces.append(dict(path=outb, status=status_of(r2.returncode), suite="replay", profile=other, elem=hdr.get("elem"),
+                               log=r2.stdout[-2000:], cmd=" ".join(cmd2)))
+        traces.append(ent)
     else:
         for s in plan["suites"]:
             traces += record_suite(s, tier, seed, key)
